@@ -435,9 +435,7 @@ func (p c16PairT) Close() {
 		<-p.done
 		close(fin)
 	}()
-	select {
-	case <-fin:
-	case <-time.After(10 * time.Second):
+	if _, ok := lib.WaitCleanup("c16/pair-close", 10*time.Second, fin); !ok { // clean-up wait: bounded by its own budget (lib/budget.go)
 		p.s2cR.Close()
 	}
 }
@@ -479,7 +477,7 @@ func c16StartPair(cs c16Case, h sftp.Handlers, workDir string, onName func(int))
 		p.OS = srv
 		go func() { err := srv.Serve(); s2cW.Close(); p.done <- err }()
 	}
-	c, err := sftp.NewClientPipe(&c16Tap{r: s2cR, onName: onName}, c2sW)
+	c, err := vhNewClient(&c16Tap{r: s2cR, onName: onName}, c2sW, nil)
 	if err != nil {
 		c2sW.Close()
 		s2cR.Close()
@@ -541,12 +539,11 @@ func c16Consume(cl *sftp.Client, api, arg string, ctx context.Context) c16Listin
 		}
 		ch <- l
 	}()
-	select {
-	case l := <-ch:
-		return l
-	case <-time.After(20 * time.Second):
+	l, ok := lib.WaitHang("c16/"+api, 20*time.Second, ch) // out of the run's hang budget (lib/budget.go)
+	if !ok {
 		return c16Listing{hang: true}
 	}
+	return l
 }
 
 type c16Verdict struct {
@@ -1144,6 +1141,9 @@ func checkC16(c *lib.Ctx) {
 		if cs.Server != "rs" {
 			continue
 		}
+		if c.Stop("c16/" + cs.api()) {
+			continue
+		}
 		if cs.DefaultBatch {
 			cs.Batch = defBatch
 		}
@@ -1344,6 +1344,9 @@ func checkC16(c *lib.Ctx) {
 			return
 		}
 		for _, cs := range j.cases {
+			if c.Stop("c16/" + cs.api()) {
+				continue
+			}
 			out := c16RunOS(cs, root, dir)
 			if out.started != nil {
 				r.Fail(lib.Failure{Kind: "tie", Key: "os-start", What: out.started.Error(), Input: cs})
